@@ -24,6 +24,50 @@ import (
 type FreshCase struct {
 	Kind string          `json:"first_call_kind"`
 	Case json.RawMessage `json:"first_call_case"`
+	// Then: further cases run after the first one in the same process, in this order (which call
+	// came first, and which came before which, is the point)
+	Then []FreshCase `json:"then,omitempty"`
+}
+
+// KindCase names one replayable case.
+type KindCase struct {
+	Kind string
+	Case any
+}
+
+// FreshSeqAll runs each sequence of cases in a process of its own, in order.
+func (c *Ctx) FreshSeqAll(seqs [][]KindCase) {
+	if IsShardWorker() && !Shard0() {
+		return
+	}
+	exe, err := os.Executable()
+	if err != nil {
+		panic("harness: cannot find own executable: " + err.Error())
+	}
+	sem := make(chan struct{}, Workers())
+	var wg sync.WaitGroup
+	for _, sq := range seqs {
+		if len(sq) == 0 {
+			continue
+		}
+		var fcs []FreshCase
+		for _, kc := range sq {
+			raw, err := json.Marshal(kc.Case)
+			if err != nil {
+				panic("harness: fresh case does not marshal: " + err.Error())
+			}
+			fcs = append(fcs, FreshCase{Kind: kc.Kind, Case: raw})
+		}
+		fc := fcs[0]
+		fc.Then = fcs[1:]
+		wg.Add(1)
+		sem <- struct{}{}
+		go func() {
+			defer func() { <-sem; wg.Done() }()
+			c.freshOne(exe, fc)
+		}()
+	}
+	wg.Wait()
 }
 
 // FreshAll runs each case (kind = name of a replayer of this property) in a process of its own,
@@ -146,6 +190,14 @@ func FreshChild(id string, arg string, replayers map[string]func(*Ctx, json.RawM
 	c := NewCtx(id, "quick")
 	c.Replaying = true
 	r(c, fc.Case)
+	for _, nx := range fc.Then {
+		rn := replayers[nx.Kind]
+		if rn == nil {
+			fmt.Fprintln(os.Stderr, "fresh: no replayer for kind", nx.Kind)
+			return 2
+		}
+		rn(c, nx.Case)
+	}
 	c.mu.Lock()
 	b, _ := json.Marshal(map[string]any{"viol": c.viol, "outcomes": c.outcomes})
 	c.mu.Unlock()
@@ -160,4 +212,24 @@ func knownClass(id, class string) bool {
 		}
 	}
 	return false
+}
+
+// FreshReplay re-runs a recorded sequence in this (fresh) process and reports like a replay: exit
+// code 1 and the violations on stdout if it fails again.
+func FreshReplay(id, arg string, replayers map[string]func(*Ctx, json.RawMessage)) int {
+	var fc FreshCase
+	if err := json.Unmarshal([]byte(arg), &fc); err != nil {
+		return 2
+	}
+	c := NewCtx(id, "quick")
+	c.Replaying = true
+	for _, x := range append([]FreshCase{fc}, fc.Then...) {
+		r := replayers[x.Kind]
+		if r == nil {
+			return 2
+		}
+		c.Evals.Add(1)
+		r(c, x.Case)
+	}
+	return c.Finish()
 }
